@@ -102,8 +102,14 @@ TEval ==
   /\ Ev.changed = 0                           \* evaluation mode: the input is returned unchanged
   /\ par' = par /\ Keep
 
+\* read positions observed to float precision, quantised to 1/u frame
+TFineGrid ==
+  /\ Ev.a = "FineGrid"
+  /\ GridFineOK(Ev.q, IF Ev.axis = "time" THEN len ELSE Tr.F, Ev.u)
+  /\ par' = par /\ Keep
+
 TNext == /\ pos < Len(Tr.ev)
-         /\ (TTimeWarp \/ TFreqWarp \/ TTimeMask \/ TFreqMask \/ TGrid \/ TApply \/ THull \/ TShape \/ TEval)
+         /\ (TTimeWarp \/ TFreqWarp \/ TTimeMask \/ TFreqMask \/ TGrid \/ TFineGrid \/ TApply \/ THull \/ TShape \/ TEval)
          /\ pos' = pos + 1 /\ i' = i
 
 TDone == pos = Len(Tr.ev)
